@@ -85,6 +85,9 @@ type (
 		userTypes []*UserTypeData
 		// errorTypes lists the error type definitions that the service depends on.
 		errorTypes []*UserTypeData
+		// errorTypeIDs holds the identifiers of the user types that are the
+		// type of an error (as opposed to the types of their attributes).
+		errorTypeIDs map[string]struct{}
 		// errorInits list the information required to generate error init
 		// functions.
 		errorInits []*ErrorInitData
@@ -583,6 +586,7 @@ func (d ServicesData) analyze(service *expr.ServiceExpr) *Data {
 		viewspkg         string
 		types            []*UserTypeData
 		errTypes         []*UserTypeData
+		errTypeIDs       = make(map[string]struct{})
 		errorInits       []*ErrorInitData
 		projTypes        []*ProjectedTypeData
 		viewedUnionMeths []*UnionValueMethodData
@@ -610,6 +614,9 @@ func (d ServicesData) analyze(service *expr.ServiceExpr) *Data {
 
 		// A function to collect user types from an error expression
 		recordError := func(er *expr.ErrorExpr) {
+			if ut, ok := er.Type.(expr.UserType); ok {
+				errTypeIDs[ut.ID()] = struct{}{}
+			}
 			if ut, ok := er.Type.(expr.UserType); ok && er.Type != expr.ErrorResult {
 				if _, ok := seen[ut.ID()]; ok {
 					// The error type has already been collected as the
@@ -830,6 +837,7 @@ func (d ServicesData) analyze(service *expr.ServiceExpr) *Data {
 		Scope:              scope,
 		ViewScope:          viewScope,
 		errorTypes:         errTypes,
+		errorTypeIDs:       errTypeIDs,
 		errorInits:         errorInits,
 		userTypes:          types,
 		projectedTypes:     projTypes,
